@@ -116,8 +116,8 @@ inline_ok = REG.inline_ok
 class NS:
     """Namespace handed to contract clauses."""
 
-    def __init__(self, **kw):
-        self.__dict__.update(kw)
+    def __init__(*a, **kw):
+        a[0].__dict__.update(kw)
 
     def __getattr__(self, name):  # pragma: no cover
         raise AttributeError("contract namespace has no %r (available: %s)" % (name, sorted(self.__dict__)))
